@@ -199,7 +199,8 @@ class TT():
 
         elif isinstance(source, np.ndarray):
             # (views with negative strides, e.g. a[::-1], cannot be converted directly)
-            source = tn.tensor(source.copy())
+            # (nor can arrays in non-native byte order)
+            source = tn.tensor(source.astype(source.dtype.newbyteorder('='), copy=True))
 
             if shape == None:
                 # no size is given. Deduce it from the tensor. No TT-matrix in this case.
